@@ -73,9 +73,12 @@ impl<'c, KD: Kind, const N: usize> MapEng<'c, KD, N> {
             let mut yielded: Vec<Y> = Vec::with_capacity(n + 4);
             let mut hints: Vec<(usize, (usize, Option<usize>))> = Vec::with_capacity(n + 4);
             let m = &mut slot.c.m;
-            let mut d = m.drain();
+            // the drain lives in harness-owned storage while the first items are pulled and is
+            // then moved elsewhere (old place overwritten): see `probe::Roving`
+            let mut rv = mmv_base::probe::Roving::new(m.drain());
             let mut ended = false;
-            for _ in 0..take {
+            for i in 0..take {
+                let d = rv.get();
                 hints.push(mmv_base::probe::hint_of(&d));
                 match Self::lib(cx, || d.next()) {
                     Ok(Some((k, v))) => yielded.push(ykv::<KD>(&k, &v)),
@@ -88,7 +91,12 @@ impl<'c, KD: Kind, const N: usize> MapEng<'c, KD, N> {
                         break;
                     }
                 }
+                if i == 0 {
+                    rv.relocate();
+                    cx.bump(S::relocations);
+                }
             }
+            let mut d = rv.into_inner();
             if !liar && (cx.armed == Prop::C19 || cx.armed == Prop::C06) {
                 let rest: Vec<(u8, u32)> = before.iter().filter(|(k, _)| !yielded.iter().any(|y| y.raw == **k as i16)).map(|(k, e)| (*k, e.val)).collect();
                 if let Ok(out) = fmt_debug::<KD>(cx, &d, false) {
@@ -615,9 +623,10 @@ impl<'c, KD: Kind, const N: usize> MapEng<'c, KD, N> {
             let mut hints: Vec<(usize, (usize, Option<usize>))> = Vec::with_capacity(n + 4);
             macro_rules! consume {
                 ($mk:expr, $ext:expr, $proj:expr, $name:expr) => {{
-                    let mut it = $mk;
+                    let mut rv = mmv_base::probe::Roving::new($mk);
                     let mut ended = false;
-                    for _ in 0..take {
+                    for i in 0..take {
+                        let it = rv.get();
                         hints.push(mmv_base::probe::hint_of(&it));
                         match Self::lib(cx, || it.next()) {
                             Ok(Some(x)) => yielded.push(($ext)(x)),
@@ -630,7 +639,13 @@ impl<'c, KD: Kind, const N: usize> MapEng<'c, KD, N> {
                                 break;
                             }
                         }
+                        if i == 0 {
+                            // a partially consumed iterator is moved to another place (old place overwritten)
+                            rv.relocate();
+                            cx.bump(S::relocations);
+                        }
                     }
+                    let mut it = rv.into_inner();
                     if want_fmt {
                         let rest: Vec<(u8, u32)> = before
                             .iter()
